@@ -45,9 +45,12 @@ def plan(tier, seed):
         specs.append(dict(kind='sift', sub=k, n=2 + k % 5,
                           rounds=300 if tier == 'thorough' else 20,
                           auto=(k % 3 == 2), hashseed=100 + k))
+    # instances beyond truth tables (12-70 variables), see vf/big.py
+    from vf import big
+    specs.extend(big.specs(tier, seed, 'C07'))
     meta = dict(
         rule=RULE,
-        require=['swap_cases', 'reorder_to_cases', 'pairs_cases',
+        require=['big_histories', 'swap_cases', 'reorder_to_cases', 'pairs_cases',
                  'sift_cases', 'swap_calls_observed',
                  'swap_index_checks', 'held_refs_rechecked',
                  'explicit_reorderings_with_dynamic_due'],
@@ -401,5 +404,8 @@ def sift_tiny(ctx):
 
 
 def run_shard(ctx, spec):
+    if spec['kind'] == 'big':
+        from vf import big
+        return ctx.guard('big', big.run, ctx, spec, case=spec)
     fn = dict(pairs3=pairs3, sampled=sampled, sift=sift)[spec['kind']]
     ctx.guard(spec['kind'], fn, ctx, spec, case=spec)
